@@ -129,6 +129,77 @@ def normalise_cause(w):
     return fix(w)
 
 
+def retrier_asl(r):
+    d = {"ErrorEquals": r["errs"]}
+    if r.get("interval") is not None:
+        d["IntervalSeconds"] = r["interval"]
+    if r.get("max") is not None:
+        d["MaxAttempts"] = r["max"]
+    if r.get("rate") is not None:
+        d["BackoffRate"] = r["rate"]
+    return d
+
+
+def retrier_obs(x):
+    return {"errs": x["errs"], "interval": x["interval"] if x.get("interval") is not None else 1,
+            "max": x["max"] if x.get("max") is not None else 3, "rate": list(RATES[x.get("rate")])}
+
+
+def observe_nested(oid, stype, outer, inner, outcomes):
+    """a retried Parallel/Map whose branch starts with a retried Task: every re-run of the outer state gives the inner
+    state fresh counters, and the inner state's retries are not counted against the outer state"""
+    T, P, SM, Par, Mp = S.T, S.P, S.SM, S.Par, S.Mp
+    task = T("f", End=True, Retry=[retrier_asl(r) for r in inner])
+    if stype == "Parallel":
+        main = Par([SM("B", B=task)], Next="OK", Retry=[retrier_asl(r) for r in outer])
+    else:
+        main = Mp(SM("B", B=task), ItemsPath="$.items", Next="OK", Retry=[retrier_asl(r) for r in outer])
+    asl = {"StartAt": "X", "States": {"X": main, "OK": P(Parameters={"w.$": "$", "m": "OK"}, End=True)}}
+    inp = {"a": {"k": 1}, "items": [1]}
+    oracle = [({"ok": {"r": 1}} if o == "ok" else {"error": o, "cause": "boom"}) for o in outcomes]
+    r = run_once(S.scn("c07n", asl, inputs=(inp,), oracle={"f": oracle}), d1=False, execution_ttl=100000)
+    ev = r.events
+    attempts = [e["t"] for e in ev if e["k"] == "pub" and e.get("kind") == "rpc"]
+    fails = [e["t"] for e in ev if e["k"] == "frame" and e.get("cause") == "reply"]
+    rec = list(r.outcomes.values())[0] or {}
+    final = {"kind": "none", "idx": 0, "error": "", "output": tagged.enc(None)}
+    if rec.get("status") == "SUCCEEDED":
+        final["kind"] = "succeeded"
+    elif rec.get("status") == "FAILED":
+        final = {"kind": "failed", "idx": 0, "error": rec.get("error") or "", "output": tagged.enc(None)}
+    nfail = sum(1 for k in range(len(attempts)) if (outcomes[min(k, len(outcomes) - 1)] != "ok"))
+    return {"id": oid, "kind": "nested", "stype": stype, "retriers": [retrier_obs(x) for x in outer], "inner": [retrier_obs(x) for x in inner],
+            "catchers": [], "outcomes": outcomes, "attempts": attempts, "fails": fails[:nfail], "final": final, "input": tagged.enc(inp),
+            "attempts2": [], "fails2": [], "interval2": 0}
+
+
+def nested_cases(thorough, rng):
+    out = []
+    names = ["E1", "E2"]
+    seqs = []
+    for n in range(1, 5 if thorough else 4):
+        for seq in itertools.product(names, repeat=n):
+            seqs.append(list(seq) + ["ok"])
+            if n <= 3:
+                seqs.append(list(seq))
+    singles = [{"errs": errs, "interval": i, "max": m, "rate": rate}
+               for errs in (["E1"], ["E2"], ["States.ALL"]) for i in (1, 2, 3) for m in (1, 2, None) for rate in (1, 2, None)]
+    seen = set()
+    want = 1500 if thorough else 120
+    while len(out) < want:
+        outer = [rng.choice(singles)]
+        inner = [rng.choice(singles)]
+        if outer[0]["errs"] == inner[0]["errs"] and rng.random() < 0.5:
+            continue
+        c = (rng.choice(["Parallel", "Map"]), outer, inner, rng.choice(seqs))
+        key = json.dumps(c, sort_keys=True)
+        if key in seen:
+            continue
+        seen.add(key)
+        out.append(c)
+    return out
+
+
 def leak_obs(oid, i1, i2):
     """two retrying Task states in sequence: the second one's counter starts afresh"""
     T, P, SM = S.T, S.P, S.SM
@@ -199,6 +270,10 @@ def run(tier_name=None, replay=None):
         o = observe(n, stype, retr, catch, outs, rng)
         obs.append(o)
         meta[n] = {"stype": stype, "retriers": retr, "catchers": catch, "outcomes": outs}
+    for stype, outer, inner, outs in nested_cases(thorough, rng):
+        n += 1
+        obs.append(observe_nested(n, stype, outer, inner, outs))
+        meta[n] = {"nested": stype, "outer": outer, "inner": inner, "outcomes": outs}
     for i1, i2 in ((1, 1), (1, 2), (2, 3), (3, 1)):
         n += 1
         obs.append(leak_obs(n, i1, i2))
